@@ -226,8 +226,24 @@ macro_rules! flavour_impl {
                             }
                         }};
                     }
+                    macro_rules! drive_collect {
+                        ($it:expr, $lst:expr) => {{
+                            let v: Vec<Edge<K, N, E>> = $it.map(|e| {
+                                let (u, w, x) = (*e.0.key(), *e.1.key(), e.2);
+                                let ok = if $lst == "in" { self.exists_now("in", w, u, x) } else { self.exists_now($lst, u, w, x) };
+                                yields.push(json!([u, w, x, ok]));
+                                if n == at { sobs = self.run_script(&spec["script"]); }
+                                n += 1;
+                                if n > 24 { panic!("edge loop does not end"); }
+                                e
+                            }).collect();
+                            drop(v);
+                        }};
+                    }
                     sel!($kind, {
                         match kind {
+                            "collect_out" => drive_collect!(node.iter_out(), "out"),
+                            "collect_in" => drive_collect!(node.iter_in(), "in"),
                             "iter_out" => drive!(node.iter_out(), "out"),
                             "iter_in" => drive!(node.iter_in(), "in"),
                             "into_iter" => drive!(node.into_iter(), "out"),
@@ -235,6 +251,7 @@ macro_rules! flavour_impl {
                         }
                     }, {
                         match kind {
+                            "collect_adj" => drive_collect!(node.iter(), "adj"),
                             "iter" => drive!(node.iter(), "adj"),
                             "into_iter" => drive!(node.into_iter(), "adj"),
                             x => panic!("loop kind {}", x),
@@ -272,6 +289,9 @@ macro_rules! flavour_impl {
                 let mode = spec["mode"].as_str().unwrap();
                 let target: Option<K> = if spec["target"].is_null() { None } else { Some(*self.nodes[us(&spec["target"])].key()) };
                 let transpose = spec["transpose"].as_bool().unwrap_or(false);
+                let repeat = spec.get("repeat").and_then(|r| r.as_bool()).unwrap_or(false);
+                let split = std::cell::Cell::new(usize::MAX);
+                let second: RefCell<Value> = RefCell::new(Value::Null);
                 let res: Value;
                 {
                     let script = spec.get("script").filter(|s| !s.is_null());
@@ -321,6 +341,14 @@ macro_rules! flavour_impl {
                                     if let Some(k) = keep { self.kept.borrow_mut().push((k, Kept::Node(r))); }
                                     v
                                 }
+                                "path" if repeat => {
+                                    let r = $s.search_path();
+                                    let v = match &r { Some(p) => Value::Array(p.edges.iter().map(edge_json).collect()), None => Value::Null };
+                                    split.set(log.borrow().len());
+                                    let r2 = $s.search_path();
+                                    second.replace(match &r2 { Some(p) => Value::Array(p.edges.iter().map(edge_json).collect()), None => Value::Null });
+                                    v
+                                }
                                 "path" | "cycle" => {
                                     let r = if mode == "path" { $s.search_path() } else { $s.search_cycle() };
                                     let v = match &r { Some(p) => Value::Array(p.edges.iter().map(edge_json).collect()), None => Value::Null };
@@ -334,6 +362,21 @@ macro_rules! flavour_impl {
                     res = self.with_handle(&spec["root"], |root| match spec["alg"].as_str().unwrap() {
                         "bfs" => { let mut s = root.bfs(); finish!(s) }
                         "dfs" => { let mut s = root.dfs(); finish!(s) }
+                        "pfs" if repeat && mode == "search" => {
+                            let mut s = root.pfs();
+                            s = if spec["prio"].as_str() == Some("max") { s.max() } else { s.min() };
+                            if let Some(t) = target.as_ref() { s = s.target(t); }
+                            sel!($kind, { if transpose { s = s.transpose(); } }, {});
+                            match method {
+                                "filter" => { s = s.filter(&mut filt); }
+                                "foreach" => { s = s.for_each(&mut fe); }
+                                _ => {}
+                            }
+                            let v = match s.search() { Some(n) => json!(*n.key()), None => Value::Null };
+                            split.set(log.borrow().len());
+                            second.replace(match s.search() { Some(n) => json!(*n.key()), None => Value::Null });
+                            v
+                        }
                         "pfs" => {
                             let mut s = root.pfs();
                             s = if spec["prio"].as_str() == Some("max") { s.max() } else { s.min() };
@@ -341,6 +384,11 @@ macro_rules! flavour_impl {
                         }
                         x => panic!("alg {}", x),
                     });
+                }
+                if repeat {
+                    let mut calls = log.into_inner();
+                    let calls2 = if split.get() <= calls.len() { calls.split_off(split.get()) } else { vec![] };
+                    return json!({"result": res, "calls": calls, "result2": second.into_inner(), "calls2": calls2});
                 }
                 if spec.get("script").map(|s| !s.is_null()).unwrap_or(false) {
                     json!({"result": res, "calls": log.into_inner(), "script": script_obs.into_inner()})
